@@ -22,7 +22,7 @@ from gen import constraints
 
 ID = "C10"
 GENERATORS = [constraints.generate]
-LEAN_MODULES = ["FimVerif.Proofs.C10"]
+LEAN_MODULES = ["FimVerif.Proofs.C10", "FimVerif.Proofs.Lemmas.C10Dec"]
 P = "FimVerif.C10."
 THEOREMS = [P + t for t in (
     "validate_iff_spec", "site_recorded", "validate_touches_only_sites", "recordedSite_declared", "recordedSite_unlimited",
@@ -31,14 +31,17 @@ THEOREMS = [P + t for t in (
     "guardrails_refuses_iff", "connect_iff", "guardrail_iff", "guardrail_sound", "gen_guardrails_everywhere",
     "svc_table_pinned", "node_table_pinned", "link_table_pinned", "guard_table_pinned", "no_limit_pinned", "tables_complete",
     "gen_service_properties_readable", "gen_node_required_readable", "gen_names_are_members", "gen_no_instance_limit",
-    "gen_instances_void")]
+    "gen_instances_void", "validate_rejects_with_topology_of", "validate_rejects_with_topology", "validate_iff_spec_gen")]
 EXHAUSTIVE = True
 TRUSTED_BASE = [
     "gen/constraints.py: dump of the three constraint tables, getter/shallow-sliver property lists, guardrail idiom, _list_nodes filter",
     "Model/Validate.lean mirrors the order of checks of Topology.validate / validate_constraints / __validate_nstype_constraints / "
     "Node.validate_constraints / connect_interface by hand; checked differentially on every case below",
     "abstraction of a slice (harness build() <-> request line): a node is (type, truthy properties), a service is (type, site, truthy "
-    "properties, owner site, interfaces with peers); graph queries (get_owner_node, get_peers, network_services listing) are not modelled",
+    "properties, owner site, interfaces with peers); graph queries (get_owner_node, get_peers, network_services listing) are not modelled; "
+    "on every fifth case the description is read back through the API (extract()) and must equal the one derived from the case",
+    "instances-per-site pass: with more than one limited service type the code visits the types in set order; the model reports the crash "
+    "branch first (exact for one limited type, which is all the edited-table stream generates; the shipped table limits none)",
 ]
 ASSUMPTIONS = [
     "element names are unique within their scope (Topology.network_services / NetworkService.interfaces are dictionaries by name)",
@@ -528,6 +531,13 @@ def run_case(case):
                 mine = [x[1] if x[0] == "d" else "ServicePort" for x in b.abstract[name][4]]
                 if sorted(api) != sorted(mine):
                     return {"build_err": "interfaces of %s: api %s harness %s" % (name, api, mine)}
+            if case.get("xcheck"):
+                mine = [b.abstract[n] for n in order]
+                api = extract(t, order, F)
+                srt = lambda d: [x[:4] + [sorted(x[4], key=canon)] for x in d]   # the API lists interfaces in its own order
+                if canon(srt(api)) != canon(srt(mine)):
+                    return {"build_err": "abstraction differs from what the API reports: api %s harness %s" % (canon(api)[:400], canon(mine)[:400])}
+                out["xchecked"] = True
             node_sites_before = sorted((k, v.site) for k, v in list(t.nodes.items()) + list((t.facilities or {}).items()))
             with patched_table(F, case.get("ov")):
                 try:
@@ -551,6 +561,35 @@ def run_case(case):
                 b.topo.graph_model.delete_graph()
             except Exception:
                 pass
+
+
+def extract(t, order, F):
+    """The request-line description of the services, read back through the public API only
+    (used on a sample of the cases to check the harness's own abstraction)."""
+    out = []
+    for name in order:
+        s = t.network_services[name]
+        owner = t.get_owner_node(s)
+        ifs = []
+        for si in s.interface_list:
+            if str(si.type) != "ServicePort":
+                ifs.append(["d", str(si.type)])
+                continue
+            peers = si.get_peers()
+            if peers is None:
+                ifs.append(["p", None])
+            else:
+                ps = []
+                for p in peers:
+                    try:
+                        o = t.get_owner_node(p)
+                    except Exception:
+                        o = None
+                    ps.append([str(p.type), o.site if o is not None else None])
+                ifs.append(["p", ps])
+        props = sorted(p for p in SVC_PROPS if s.get_property(p))
+        out.append([str(s.type), s.site, props, owner.site if owner is not None else None, ifs])
+    return out
 
 
 def run_connect(case, F):
@@ -751,14 +790,20 @@ _CACHE = {}
 
 
 def case_list(ctx, tag):
+    global EXHAUSTIVE
+    EXHAUSTIVE = bool(ctx.thorough)      # the grids are enumerated completely only in the thorough tier
     """corner cases first (C, D, F), then the A/B grids (all in thorough, a seeded sample in quick), then edited tables"""
     rng = ctx.sub_rng("cases")
     fixed = corpus_cases() + list(grid_C()) + list(grid_D()) + list(grid_F())
     ab = list(grid_A()) + list(grid_B())
     if not ctx.thorough:
-        ab = rng.sample(ab, 1300)
+        ab = rng.sample(ab, 1100)
     e = list(grid_E(ctx.sub_rng("tables"), ctx.scale(250, 3000)))
-    return fixed + ab + e
+    allc = fixed + ab + e
+    for i, c in enumerate(allc):
+        if i % 5 == 0 and not c.get("connect"):
+            c["xcheck"] = True
+    return allc
 
 
 def corpus_cases():
@@ -776,7 +821,7 @@ def evaluated(ctx):
     key = (ctx.seed, ctx.tier)
     if key not in _CACHE:
         cases = case_list(ctx, "main")
-        outs = run_cases(cases, ctx.scale(4, 8))
+        outs = run_cases(cases, ctx.scale(6, 8))
         _CACHE[key] = (cases, outs)
     return _CACHE[key]
 
@@ -801,10 +846,24 @@ def correspondence(ctx, res):
         res.count("op:" + r[0])
         res.count("verdict:" + o["status"])
         res.nontrivial.add(canon(r))
-        if json.loads(m) != impl:
-            res.disagreements.append({"case": cases[i], "request": r, "impl": impl, "model": json.loads(m)})
+        if o.get("xchecked"):
+            res.count("abstraction-cross-checked")
+        mj = json.loads(m)
+        spec = mj[2:]
+        mj = mj[:2] if r[0] == "validate" else mj
+        if mj != impl:
+            res.disagreements.append({"case": cases[i], "request": r, "impl": impl, "model": mj})
+        elif r[0] == "validate" and spec[0] != (mj[0] == "ok"):
+            # run-time instance of theorem validate_iff_spec
+            res.disagreements.append({"case": cases[i], "request": r, "impl": "model verdict %s" % mj[0], "model": "decide SpecOK = %s" % spec[0]})
+        elif r[0] == "validate" and not cases[i].get("ov") and spec[1] != (not expected(cases[i])[0]):
+            # the Lean specification SpecFull and the harness's independent oracle must mean the same thing
+            res.disagreements.append({"case": cases[i], "request": r, "impl": "python oracle: %s" % (expected(cases[i])[0] or "valid"),
+                                      "model": "decide SpecFull = %s" % spec[1]})
+            res.count("spec-vs-oracle-differs")
         elif r[0] == "validate":
             res.sample({"request": r, "impl": impl, "model": json.loads(m)}) if (len(r[4]) and res.evaluations % 997 == 0) else None
+            res.count("spec-vs-oracle-agree") if not cases[i].get("ov") else None
     if reqs:
         res.sample({"request": reqs[-1], "impl": outs[idx[-1]]["status"], "model": json.loads(model[-1])})
 
